@@ -121,11 +121,17 @@ func vRemoteSnapshotKey(inst, key string, ts uint64, val []byte) []byte {
 	return blob
 }
 
+// vLoopOnlyKind, if >= 0, fixes the kind of application change (2 = delete of the only key).
+var vLoopOnlyKind = -1
+
 // appCommit lets the application commit one transaction.
 func (l *vLoop) appCommit(point string) {
 	kind := 0
 	if l.kinds > 1 {
 		kind = zz.Choice("app.kind", l.kinds)
+	}
+	if vLoopOnlyKind >= 0 {
+		kind = vLoopOnlyKind
 	}
 	var w vAppWrite
 	w.point, w.iter = point, l.iter
@@ -443,3 +449,24 @@ func verifLoopTwoRemotes(native bool) {
 
 func VerifLoopTwoRemotesNative() { verifLoopTwoRemotes(true) }
 func VerifLoopTwoRemotesShadow() { verifLoopTwoRemotes(false) }
+
+// VerifLoopDeleteNative / VerifLoopDeleteShadow: the application change is a delete of the only
+// key of the DBI (in shadow mode the DBI is empty afterwards) at any yield point of iterations
+// 1..3: the delete is not reverted by syncing (C03), it is published as a deletion marker (C09).
+func verifLoopDelete(native bool) {
+	vLoopOnlyKind = 2
+	l := vRunLoop(native, 5, 3, 1, 3, []int{2, 3}, 0)
+	vLoopOnlyKind = -1
+	if l == nil {
+		return
+	}
+	l.checkNotDestroyed("loop")
+	l.checkPublished("loop")
+	if l.commits == 1 {
+		zz.Reach("C03/loopdelete/with-commit")
+	}
+	zz.Reach("C03/loopdelete/done")
+}
+
+func VerifLoopDeleteNative() { verifLoopDelete(true) }
+func VerifLoopDeleteShadow() { verifLoopDelete(false) }
